@@ -50,6 +50,9 @@ func cyclesFor(u *Universe, ref *Ref) []cycle {
 		cycle{"TopK(2)", func(d Driver) { drain(d.Seq(Query{Kind: SeqTopK, N: 2})) }},
 		cycle{"BottomK(2)", func(d Driver) { drain(d.Seq(Query{Kind: SeqBottomK, N: 2})) }},
 		cycle{"All() abandoned after one element", func(d Driver) { d.Seq(Query{Kind: SeqAll})(func(Pair) bool { return false }) }},
+		cycle{"Backward() abandoned after one element", func(d Driver) { d.Seq(Query{Kind: SeqBackward})(func(Pair) bool { return false }) }},
+		cycle{"TopK(3) abandoned after one element", func(d Driver) { d.Seq(Query{Kind: SeqTopK, N: 3})(func(Pair) bool { return false }) }},
+		cycle{"BottomK(3) abandoned after one element", func(d Driver) { d.Seq(Query{Kind: SeqBottomK, N: 3})(func(Pair) bool { return false }) }},
 	)
 	if u.HasPrefix {
 		for i, p := range u.Prefixes {
@@ -58,12 +61,16 @@ func cyclesFor(u *Universe, ref *Ref) []cycle {
 			}
 			p := p
 			cs = append(cs, cycle{fmt.Sprintf("Prefix(%s)", u.KeyStr[p]), func(d Driver) { drain(d.Seq(Query{Kind: SeqPrefix, A: p})) }})
+			if i == 0 {
+				cs = append(cs, cycle{fmt.Sprintf("Prefix(%s) abandoned after one element", u.KeyStr[p]), func(d Driver) { d.Seq(Query{Kind: SeqPrefix, A: p})(func(Pair) bool { return false }) }})
+			}
 		}
 	}
 	if (u.HasRange || u.Kind == "collation") && len(u.Bounds) >= 2 && ref.Len() > 0 {
 		a, b := u.Bounds[0], u.Bounds[len(u.Bounds)-1]
 		if u.RangeSkip == nil || !u.RangeSkip(a, b) {
 			cs = append(cs, cycle{fmt.Sprintf("Range(%s,%s)", u.KeyStr[a], u.KeyStr[b]), func(d Driver) { drain(d.Seq(Query{Kind: SeqRange, A: a, B: b})) }})
+			cs = append(cs, cycle{fmt.Sprintf("Range(%s,%s) abandoned after one element", u.KeyStr[a], u.KeyStr[b]), func(d Driver) { d.Seq(Query{Kind: SeqRange, A: a, B: b})(func(Pair) bool { return false }) }})
 		}
 	}
 	for _, k := range append(append([]int{}, u.Free...), u.DelExtra...) {
@@ -98,7 +105,7 @@ func ExploreHeap(u *Universe, tier string, deadline time.Duration) *Result {
 	runtime.GOMAXPROCS(1)
 	st := &res.Stats
 	st.Samples = nil
-	pump := c17Pump
+	pump := pumpFor(tier)
 	fail := func(v *Violation, path []Op) *Result {
 		v.Property, v.Universe, v.Tier = "C17", u.Name, tier
 		v.Path = path
@@ -153,12 +160,18 @@ func heapCheckState(u *Universe, path []Op, pump int, st *Stats, maxGrowth, maxP
 	}
 	for _, c := range cs {
 		before := liveHeap()
+		gBefore := runtime.NumGoroutine()
 		for i := 0; i < pump; i++ {
 			c.f(d)
 		}
 		after := liveHeap()
 		st.Evaluations++
 		st.Nontrivial++
+		// goroutines left behind (e.g. a pull-style iterator that is never stopped) pin their stacks and whatever they reference
+		if gr := runtime.NumGoroutine() - gBefore; gr > pump/100 {
+			return viol(fmt.Sprintf("goroutines left behind by %d repetitions of %s on content %s", pump, c.name, ref),
+				"none (bounded, independent of the number of operations)", fmt.Sprintf("%d more goroutines than before, each keeping its stack alive", gr))
+		}
 		g := after - before
 		if g > *maxGrowth {
 			*maxGrowth = g
@@ -211,8 +224,17 @@ func heapCheckState(u *Universe, path []Op, pump int, st *Stats, maxGrowth, maxP
 }
 
 // ReplayHeap re-measures one state (replay primitive).
-func ReplayHeap(u *Universe, path []Op) *Violation {
+func ReplayHeap(u *Universe, path []Op, tier string) *Violation {
 	debug.SetGCPercent(100)
 	runtime.GOMAXPROCS(1)
-	return heapCheckState(u, path, c17Pump, &Stats{}, new(int64), new(int64))
+	return heapCheckState(u, path, pumpFor(tier), &Stats{}, new(int64), new(int64))
+}
+
+// pumpFor: repetitions per cycle; the thorough tier pumps five times longer against the same threshold
+// (a leak of a third of a byte per repetition crosses it).
+func pumpFor(tier string) int {
+	if tier == "thorough" {
+		return 5 * c17Pump
+	}
+	return c17Pump
 }
